@@ -40,6 +40,7 @@ inductive Err
   | notMasked        -- ReadOnlyMaskedAccess on an unmasked array
   | stepZero         -- ValueError "slice step cannot be zero"
   | domainError      -- std::domain_error "Slice extraction produced invalid ..."
+  | rowLenMismatch   -- std::invalid_argument "FixedVArray::setitem: length of data does not match length of array element"
   | badRef           -- model only: the op names a view that does not exist
   | oob              -- model only: access outside the buffer (C++ undefined behaviour)
   deriving DecidableEq, Repr, Inhabited
@@ -48,7 +49,7 @@ def Err.name : Err → String
   | .indexError => "indexError" | .srcDimMismatch => "srcDimMismatch" | .readOnly => "readOnly"
   | .dimMismatch => "dimMismatch" | .maskDataMismatch => "maskDataMismatch" | .maskedMask => "maskedMask"
   | .maskedSetMask => "maskedSetMask" | .isMasked => "isMasked" | .notMasked => "notMasked"
-  | .stepZero => "stepZero" | .domainError => "domainError" | .badRef => "badRef" | .oob => "oob"
+  | .stepZero => "stepZero" | .domainError => "domainError" | .rowLenMismatch => "rowLenMismatch" | .badRef => "badRef" | .oob => "oob"
 
 def Err.pyClass : Err → String
   | .indexError | .srcDimMismatch => "IndexError"
@@ -626,6 +627,38 @@ def iaddVector (cfg : Cfg) (h : Heap) (a b : View) : Except Err Heap :=
         | .error e => .error e
         | .ok bacc =>
           forLoop (acc.addFrom bacc) len 0 h
+
+/-! ## component arrays of vector arrays
+
+`Vec3Array_get` (PyImathVec3ArrayImpl.h) and its copies `Vec2Array_get`, `Vec4Array_get`, `Color3Array_get`,
+`Color4Array_get`, `QuatArray_get`, `BoxArray_get`: the properties `.x .y .z .w .r .g .b .a .min .max`.
+
+A vector array of `w`-component elements is modelled on the same heap: element `i` of the dense array occupies the
+cells `w*i .. w*i+w-1`, and `off` / `stride` of its view are counted in CELLS (so the C++ `w * va.stride()` is the
+model's `va.stride`).  All 1-D operations of this file read the FIRST component through such a view. -/
+
+/-- `V3iArray(n)` filled component by component: the dense writable view on `cells.length / w` elements -/
+def allocWide (h : Heap) (w : Nat) (cells : List Int) : Heap × View :=
+  (h ++ [cells], { buf := h.length, off := 0, length := cells.length / w, stride := w, writable := true,
+                   indices := none, unmaskedLength := 0 })
+
+/-- `FixedArray<T>(&va.unchecked_index(0)[k], va.len(), w*va.stride(), va.handle(), va.writable())`.
+
+    `keepsMask = false` — AS WRITTEN: `unchecked_index(0)` of a masked reference is element `_indices[0]` (read even
+    when the reference is empty), and the result is an UNMASKED array of `len()` consecutive elements from there:
+    `_indices` is dropped.
+    `keepsMask = true` — intended: the component array of a masked reference is a masked reference with the same
+    indices over the same storage. -/
+def compView (keepsMask : Bool) (va : View) (k : Nat) : Except Err View :=
+  if keepsMask then .ok { va with off := va.off + k }
+  else
+    match va.indices with
+    | none => .ok { va with off := va.off + k }
+    | some idx =>
+      match idx[0]? with
+      | none => .error .oob
+      | some r => .ok { buf := va.buf, off := va.pos r + k, length := va.length, stride := va.stride,
+                        writable := va.writable, indices := none, unmaskedLength := 0 }
 
 /-! ## the Python-level state machine -/
 
